@@ -161,6 +161,40 @@ class Check(PropertyCheck):
                 res.append(("roundtrip:" + line, f"operations differ after the {line} round trip"))
             if line == "dict" and (back.name != orig.name or back.metadata != orig.metadata):
                 res.append(("roundtrip:dict", "name or metadata lost in the dict round trip"))
+            if line == "dict":
+                # from_matrices with every machine entry given as a list (allowed for non-flexible instances too), and the
+                # caller changing its own lists afterwards: the views are defined by the operations
+                import jsl
+
+                def views_of(inst):
+                    keep, impl.instance = impl.instance, inst
+                    try:
+                        return impl.cmd_views([])
+                    except Exception as e:  # pylint: disable=broad-except
+                        return f"raise {type(e).__name__}: {e}"
+                    finally:
+                        impl.instance = keep
+                dm = [[op.duration for op in job] for job in orig.jobs]
+                mm = [[list(op.machines) for op in job] for job in orig.jobs]
+                try:
+                    inst2 = jsl.JobShopInstance.from_matrices(dm, mm, name=orig.name)
+                except Exception as e:  # pylint: disable=broad-except
+                    res.append(("from_matrices", f"from_matrices with list-valued machine entries raised {e!r}"))
+                    inst2 = None
+                if inst2 is not None:
+                    v1, v2 = views_of(orig), views_of(inst2)
+                    if v1 != v2:
+                        res.append(("from_matrices", f"views of from_matrices(durations, list-valued machines) differ from "
+                                    f"the views of the same operations: {v2[:160]} vs {v1[:160]}"))
+                    inst3 = jsl.JobShopInstance.from_matrices(dm, mm, name=orig.name)
+                    dm[0][0] += 7
+                    mm[-1].append([0])       # (the innermost lists ARE the operations' machine lists: not touched)
+                    dm[-1].append(3)
+                    dm.append([1])
+                    v3 = views_of(inst3)
+                    if v3 != v1:
+                        res.append(("from_matrices", "an instance built by from_matrices changed when the caller later "
+                                    f"modified the lists it had passed: {v3[:160]} vs {v1[:160]}"))
             if line == "taillard" and (back.name != "verif_inst" or back.metadata != {"key": "value"}):
                 res.append(("roundtrip:taillard", f"name/metadata after Taillard load: {back.name!r} {back.metadata!r}"))
         elif line == "rebuild":
